@@ -881,7 +881,9 @@ func (ag *aggrGroup) insert(ctx context.Context, alert *alert.Alert) bool {
 		trace.WithSpanKind(trace.SpanKindInternal),
 	)
 	defer span.End()
-	if err := ag.alerts.Set(alert); err != nil {
+	// Ingestion workers run concurrently, so two updates of one alert can get
+	// here in either order: never let the older one replace the newer one.
+	if err := ag.alerts.SetIfNotOlder(alert); err != nil {
 		if errors.Is(err, store.ErrDestroyed) {
 			return false
 		}
